@@ -234,6 +234,21 @@ func scenarios(thorough bool) []*scenario {
 			r.Out = ""
 			return r
 		}},
+		{name: "fetch-file-remote", build: func(w *gitx.World, srv *fakelfs.Server) {
+			// a file:// remote: git-lfs starts ITSELF as the transfer agent (`git-lfs standalone-file`), a second instrumented
+			// process whose every storage operation is a crash point of its own
+			repo := baseRepo(w, nil)
+			commitPointers(w, repo, map[string][]byte{"a.bin": A, "b.bin": B}, "ptrs")
+			w.MustGit(repo, "config", "--unset", "lfs.url")
+			remote := w.Init("remote.git", true)
+			gitx.PutObject(filepath.Join(remote, "lfs"), A)
+			gitx.PutObject(filepath.Join(remote, "lfs"), B)
+		}, prep: func(w *gitx.World) {
+			w.MustGit(repoOf(w), "config", "remote.origin.url", "file://"+filepath.Join(w.Root, "remote.git"))
+			w.MustGit(repoOf(w), "config", "remote.origin.fetch", "+refs/heads/*:refs/remotes/origin/*")
+		}, cmd: func(w *gitx.World, env []string) gitx.Res {
+			return w.RunIn(repoOf(w), nil, env, filepath.Join(w.BinDir, "git-lfs"), "fetch", "origin")
+		}},
 		customAgentScenario("fetch-custom-agent-same-fs", false, A, B, false),
 		customAgentScenario("fetch-custom-agent-cross-fs", true, A, B, false),
 		customAgentScenario("fetch-custom-agent-corrupt-delivery", false, A, B, true),
@@ -496,7 +511,7 @@ func TestVerifC09(t *testing.T) {
 	osxBin = os.Getenv("VERIF_GITLFS_OSX")
 	gitx.CmdTimeout = 120 * time.Second
 	scs := scenarios(true)
-	nq := 10
+	nq := 12
 	if !c.Thorough() {
 		scs = scs[:nq]
 	}
